@@ -1165,3 +1165,57 @@ impl Engine for E1 {
         out.into_iter().map(|s| serde_json::to_value(s).unwrap()).collect()
     }
 }
+
+// ------------------------------------------------------------------ Miri entry
+
+/// Small adversarial histories over three tiny documents, executed directly (no JSON, no
+/// projections): the memory-model check of C19.6 under Miri, where pest is ~10^4 x slower.
+pub fn miri_smoke(from: u64, to: u64) -> usize {
+    let docs = [
+        ("/p/a.graphql", "#import F from \"./b.graphql\"\nquery Q { a ...F }\n"),
+        ("/p/b.graphql", "#import * from \"./c.graphql\"\nfragment F on T { b ...G }\n"),
+        ("/p/c.graphql", "fragment G on T { c }\n"),
+    ];
+    let mut bad = 0;
+    for seed in from..to {
+        let mut r = Rng::new(rng::mix(seed, 0x4d495249));
+        let n = r.range(6, 12);
+        let history = std::thread::spawn(move || {
+            let mut inst = Instance::new();
+            let mut out = Vec::new();
+            let mut next_slot = 0usize;
+            for _ in 0..n {
+                let t = match r.below(6) {
+                    0 => TaskRef::Raw(0),
+                    1 => TaskRef::Unissued(0),
+                    _ => TaskRef::Slot(r.below(next_slot.max(1))),
+                };
+                let d = r.below(3);
+                let op = match if next_slot == 0 { 0 } else { r.weighted(&[2, 3, 5, 3, 2, 1, 1]) } {
+                    0 => {
+                        next_slot += 1;
+                        Op::Initiate { slot: next_slot - 1, file: docs[d].0.into(), src: docs[d].1.into(), imports: None }
+                    }
+                    1 => Op::Required { t },
+                    2 => Op::Load { t, file: docs[d].0.into(), src: docs[d].1.into(), imports: None },
+                    3 => Op::Emit { t },
+                    4 => Op::Free { t },
+                    5 => Op::ReadResult,
+                    _ => Op::LoadConfig { text: "schema: s.graphql\n".into() },
+                };
+                let (id, resp) = inst.exec(&op);
+                out.push(format!("{}({id}) -> {}", op_kind(&op), resp.ret));
+            }
+            out
+        })
+        .join();
+        match history {
+            Ok(h) => println!("miri seed {seed}: {}", h.join(", ")),
+            Err(_) => {
+                println!("miri seed {seed}: PANIC");
+                bad += 1;
+            }
+        }
+    }
+    bad
+}
